@@ -10,7 +10,8 @@ prop(
     "actions, thorough: 6 bytes / <=4 fragments) and randomly for streams up to 64 KiB with heavy overlap, duplication and containment.",
     level_note="Trusted: the reference model (40 lines) and the PRF content generator. Fragments are always consistent slices of one content, as the property states.",
     design_ref="DESIGN.md §3 C08",
-    legs=[dict(name="recvbuf", crate="l1rec", sub="c08", shards={Q: 8, T: 16}, budget={Q: 2500, T: 40000}, timeout=1500)],
+    legs=[dict(name="recvbuf", crate="l1rec", sub="c08", shards={Q: 8, T: 16}, budget={Q: 2500, T: 40000}, timeout=1500),
+          dict(name="miri", kind="miri", crate="l1rec", sub="c08", tiers=(T,), args=["--interp", "1"], budget={T: 2}, timeout=5400, mandatory=False)],
     floors={Q: {"exhaustive_histories": 1_000_000, "random_step_checks": 100_000, "distinct": 1000}},
     assumptions=["fragments are slices of one underlying byte sequence (the property's premise)", "single-threaded use of RecvBuf (it is owned by a mutex-protected receiver in production)"],
 )
